@@ -135,6 +135,16 @@ pub fn programs(tier: Tier) -> ProgramSet {
             out.push(Program { idx: 0, label: format!("{} [custom error type mentioning T]", e.label), k: e.k + 1, spec, aux: json!({"generic_err": true}), source });
         }
     }
+    // the error type and function are named by ABSOLUTE paths, next to local modules called like their first segment
+    {
+        let mut spec = EnumSpec::base(3);
+        spec.parse_err = true;
+        let source = format!(
+            "{}pub mod vf_abs_path_probe {{\n    #![allow(dead_code)]\n    mod vf_core {{}}\n    mod core {{}}\n    #[derive(Debug, PartialEq, strum::EnumString)]\n    #[strum(parse_err_ty = ::vf_core::MyErr, parse_err_fn = ::vf_core::my_err)]\n    pub enum Probe {{ Aa, Bb }}\n    pub fn miss() -> ::core::result::Result<Probe, ::vf_core::MyErr> {{ <Probe as ::core::str::FromStr>::from_str(\"zz\") }}\n}}\n",
+            render(&spec)
+        );
+        out.push(Program { idx: 0, label: "B3 [custom error] + a second enum whose error type / function are absolute paths next to local modules `vf_core` and `core`".into(), k: 2, spec, aux: json!(null), source });
+    }
     // a DISABLED variant claims nothing: an enabled variant declared after it accepts the same name
     for custom in [true, false] {
         let mut spec = EnumSpec::base(3);
